@@ -1,3 +1,149 @@
 package main
 
-func runThorough(c *Ctx, pd *propDef, repo string) {}
+import (
+	"encoding/json"
+	"fmt"
+	"os"
+	"os/exec"
+	"path/filepath"
+	"sort"
+	"strings"
+)
+
+// Thorough tier: everything of the quick tier, plus
+//  (1) the same rules evaluated on a second build configuration (GOARCH=386: 32-bit int, other type sizes);
+//      a verdict that differs there is reported with that configuration named;
+//  (2) the mutant catalogue: every confirmed seeded change under /verif/seeded whose meta.json says this
+//      property's check detects it is applied to a scratch copy of /repo's working tree (outside /repo and
+//      /verif, removed afterwards) and analysed statically; the check must report a violation. A missed
+//      mutant is a *checker regression* (CHECK-BROKEN), never a property violation. Mutants whose patch no
+//      longer applies to the tree under analysis are skipped and listed.
+// No gomavlib code is executed in either step.
+
+type seedMeta struct {
+	Property   string              `json:"property"`
+	Summary    string              `json:"summary"`
+	DetectedBy map[string][]string `json:"detected_by"`
+}
+
+func runThorough(c *Ctx, pd *propDef, repo string) {
+	r := c.R
+	// (1) second configuration
+	r.Rule("T.config", "thorough: the rules of this property give the same verdict when the repository is loaded for GOARCH=386 (32-bit int); obligations that fail only there are reported with the configuration", 1)
+	if c2, err := LoadRepo(repo, pd.Patterns, true, "GOARCH=386"); err != nil {
+		r.Broken("T.config", "GOARCH=386 load", err.Error())
+	} else {
+		r2 := NewReport(pd.ID, "thorough")
+		c2.R = r2
+		func() {
+			defer func() {
+				if e := recover(); e != nil {
+					r.Broken("T.config", "GOARCH=386 analysis", fmt.Sprint(e))
+				}
+			}()
+			pd.Run(c2)
+		}()
+		base := map[string]string{}
+		for _, o := range r.Obls {
+			base[o.Rule+"|"+o.Construct] = o.Status
+		}
+		diff := 0
+		for _, o := range r2.Obls {
+			if o.Status == StViolation && base[o.Rule+"|"+o.Construct] != StViolation {
+				diff++
+				r.Fail(o.Rule, o.Construct+" [GOARCH=386]", o.Pos, o.Detail)
+			}
+			if o.Status == StBroken && base[o.Rule+"|"+o.Construct] != StBroken {
+				diff++
+				r.Broken(o.Rule, o.Construct+" [GOARCH=386]", o.Detail)
+			}
+		}
+		if diff == 0 {
+			r.OK("T.config", "GOARCH=386", "-", fmt.Sprintf("%d obligations re-evaluated on the 32-bit configuration, same verdicts", len(r2.Obls)))
+		}
+	}
+
+	// (2) mutant catalogue
+	r.Rule("T.mutants", "thorough: self-test of the checker on the catalogue of confirmed seeded changes (/verif/seeded): each change recorded as detected by this property's check is applied to a scratch copy of the tree under analysis and must be reported "+
+		"(a miss is a checker regression, exit 2; a patch that no longer applies is skipped and listed)", 0)
+	verif := verifDir
+	metas, _ := filepath.Glob(filepath.Join(verif, "seeded", "*", "meta.json"))
+	sort.Strings(metas)
+	detected, skipped, total := 0, 0, 0
+	for _, mf := range metas {
+		var sm seedMeta
+		b, err := os.ReadFile(mf)
+		if err != nil || json.Unmarshal(b, &sm) != nil {
+			continue
+		}
+		if _, ok := sm.DetectedBy[pd.ID]; !ok {
+			continue
+		}
+		id := filepath.Base(filepath.Dir(mf))
+		total++
+		scratch, err := os.MkdirTemp("", "gmvscratch-")
+		if err != nil {
+			r.Broken("T.mutants", id, err.Error())
+			continue
+		}
+		func() {
+			defer os.RemoveAll(scratch)
+			if out, err := exec.Command("sh", "-c", fmt.Sprintf("cd %q && tar --exclude=.git -cf - . | tar -xf - -C %q", repo, scratch)).CombinedOutput(); err != nil {
+				r.Broken("T.mutants", id, "scratch copy failed: "+string(out))
+				return
+			}
+			patch := filepath.Join(filepath.Dir(mf), "patch.diff")
+			cmd := exec.Command("git", "apply", "--whitespace=nowarn", patch)
+			cmd.Dir = scratch
+			cmd.Env = append(os.Environ(), "GIT_CEILING_DIRECTORIES="+filepath.Dir(scratch))
+			if out, err := cmd.CombinedOutput(); err != nil {
+				skipped++
+				r.Notes = append(r.Notes, fmt.Sprintf("mutant %s skipped: patch does not apply to the tree under analysis (%s)", id, strings.TrimSpace(lastLine(string(out)))))
+				return
+			}
+			cm, err := LoadRepo(scratch, pd.Patterns, true)
+			if err != nil {
+				r.Notes = append(r.Notes, fmt.Sprintf("mutant %s: load failure counts as detection-by-compiler: %v", id, err))
+				skipped++
+				return
+			}
+			rm := NewReport(pd.ID, "thorough")
+			cm.R = rm
+			func() {
+				defer func() { recover() }()
+				pd.Run(cm)
+			}()
+			nv := 0
+			first := ""
+			for _, o := range rm.Obls {
+				if o.Status == StViolation {
+					// known findings of the unchanged tree do not count
+					isBase := false
+					for _, b := range r.Obls {
+						if b.Rule == o.Rule && b.Construct == o.Construct && (b.Status == StViolation || b.Status == StKnown) {
+							isBase = true
+						}
+					}
+					if !isBase {
+						nv++
+						if first == "" {
+							first = "[" + o.Rule + "] " + o.Construct
+						}
+					}
+				}
+			}
+			if nv > 0 {
+				detected++
+				r.OK("T.mutants", id, "-", fmt.Sprintf("seeded change reported (%d new violations, first: %s)", nv, first))
+			} else {
+				r.Broken("T.mutants", id, "checker regression: the seeded change '"+sm.Summary+"' recorded as detected by "+pd.ID+" is no longer reported")
+			}
+		}()
+	}
+	r.Notes = append(r.Notes, fmt.Sprintf("mutant catalogue: %d applicable to %s, %d detected, %d skipped", total, pd.ID, detected, skipped))
+}
+
+func lastLine(s string) string {
+	ls := strings.Split(strings.TrimSpace(s), "\n")
+	return ls[len(ls)-1]
+}
